@@ -160,7 +160,9 @@ func (v *Verifier) external(st *State, in *ssa.Call, fn *ssa.Function, args []*T
 		}
 		return set(e)
 	case "fmt.Sprintf", "fmt.Sprint":
-		// deterministic, otherwise opaque
+		if r, ok := v.sprintf(st, in, name == "fmt.Sprint", args); ok {
+			return set(r)
+		}
 		r := Fresh("sprintf", SString)
 		return set(r)
 	case "strconv.ParseUint":
@@ -173,6 +175,21 @@ func (v *Verifier) external(st *State, in *ssa.Call, fn *ssa.Function, args []*T
 				return set(IntLit(0), e)
 			}
 			return set(IntBig(newBigU(u)), zeroTerm(SIface))
+		}
+		if p, d, isDec := decString(s); isDec && args[1].IsInt() && args[1].Int64() == 10 {
+			v.assumeNote("strconv.ParseUint on literal ++ decimal: decided structurally (canonical decimal of n < 2^64 parses to n; a non-digit prefix is a syntax error)")
+			if p == "" {
+				n := d.Args[0]
+				inRange := And(Ge(n, IntLit(0)), Lt(n, IntBig(pow2(64))))
+				e := freshError(st, "parseuint_err")
+				errLeaf[e] = true
+				return set(Ite(inRange, n, IntLit(0)), Ite(inRange, zeroTerm(SIface), e))
+			}
+			if !isDigits(p) {
+				e := freshError(st, "parseuint_err")
+				errLeaf[e] = true
+				return set(IntLit(0), e)
+			}
 		}
 		ok := App("parse_uint_ok", SBool, s)
 		val := App("parse_uint_val", SInt, s)
@@ -195,6 +212,11 @@ func (v *Verifier) external(st *State, in *ssa.Call, fn *ssa.Function, args []*T
 		if allLit(args...) {
 			return set(BoolLit(strings.Contains(args[0].Str, args[1].Str)))
 		}
+		if p, _, ok := decString(args[0]); ok && args[1].Op == "str" && !hasDigit(args[1].Str) {
+			// prefix ++ dec(n): a digit-free needle can only occur inside the prefix (or be empty)
+			v.assumeNote("strings.Contains on literal ++ decimal: decided structurally (decimal renderings contain only digits)")
+			return set(BoolLit(strings.Contains(p, args[1].Str)))
+		}
 		return set(mk("str.contains", SBool, args[0], args[1]))
 	case "strings.ContainsRune":
 		if allLit(args...) {
@@ -210,6 +232,11 @@ func (v *Verifier) external(st *State, in *ssa.Call, fn *ssa.Function, args []*T
 	case "strings.Trim":
 		if allLit(args...) {
 			return set(StrLit(strings.Trim(args[0].Str, args[1].Str)))
+		}
+		if p, d, ok := decString(args[0]); ok && args[1].Op == "str" && !hasDigit(args[1].Str) {
+			// a decimal rendering is non-empty and starts and ends with a digit: only the prefix is trimmed
+			v.assumeNote("strings.Trim on literal ++ decimal: decided structurally")
+			return set(strConcat(StrLit(strings.TrimLeft(p, args[1].Str)), d))
 		}
 		return set(App("str_trim", SString, args[0], args[1]))
 	case "strings.Join":
@@ -329,3 +356,118 @@ func strConcat(a, b *Term) *Term {
 }
 
 var _ = fmt.Sprintf
+
+// decString recognises  literal ++ dec(n)  (or dec(n) alone).
+func decString(t *Term) (prefix string, d *Term, ok bool) {
+	if t.Op == "app" && t.Str == "dec" {
+		return "", t, true
+	}
+	if t.Op == "str.++" && len(t.Args) == 2 && t.Args[0].Op == "str" && t.Args[1].Op == "app" && t.Args[1].Str == "dec" {
+		return t.Args[0].Str, t.Args[1], true
+	}
+	return "", nil, false
+}
+
+func hasDigit(s string) bool { return strings.ContainsAny(s, "0123456789") }
+func isDigits(s string) bool {
+	for _, r := range s {
+		if r < '0' || r > '9' {
+			return false
+		}
+	}
+	return s != ""
+}
+
+// sprintf models fmt.Sprintf/Sprint for formats made of literal text and %s %d %v verbs.
+func (v *Verifier) sprintf(st *State, in *ssa.Call, isSprint bool, args []*Term) (*Term, bool) {
+	var format string
+	var elemsArg *Term
+	if isSprint {
+		elemsArg = args[0]
+	} else {
+		if args[0].Op != "str" {
+			return nil, false
+		}
+		format = args[0].Str
+		elemsArg = args[1]
+	}
+	elems, ok := sliceElems(st, elemsArg, SIface)
+	if !ok {
+		return nil, false
+	}
+	if isSprint {
+		if len(elems) != 1 {
+			return nil, false
+		}
+		format = "%v"
+	}
+	res := StrLit("")
+	ai := 0
+	for i := 0; i < len(format); i++ {
+		c := format[i]
+		if c != '%' {
+			res = strConcat(res, StrLit(string(c)))
+			continue
+		}
+		i++
+		if i >= len(format) {
+			return nil, false
+		}
+		verb := format[i]
+		if verb == '%' {
+			res = strConcat(res, StrLit("%"))
+			continue
+		}
+		if verb != 's' && verb != 'd' && verb != 'v' || ai >= len(elems) {
+			return nil, false
+		}
+		piece, ok := v.renderArg(st, in, verb, elems[ai])
+		ai++
+		if !ok {
+			return nil, false
+		}
+		res = strConcat(res, piece)
+	}
+	if ai != len(elems) {
+		return nil, false
+	}
+	v.assumeNote("fmt.Sprintf/Sprint with %s %d %v: concatenation of String() results, strings and canonical decimals (assumed)")
+	return res, true
+}
+
+func (v *Verifier) renderArg(st *State, in *ssa.Call, verb byte, e *Term) (*Term, bool) {
+	tag := Sel(e, 0)
+	if !tag.IsInt() {
+		return nil, false
+	}
+	T := typeTagTypes[tag.Int64()]
+	if T == nil {
+		return nil, false
+	}
+	val := unbox(st, e, T)
+	if verb == 's' || verb == 'v' {
+		// Stringer with a contract
+		ms := v.P.Prog.MethodSets.MethodSet(T)
+		for i := 0; i < ms.Len(); i++ {
+			if ms.At(i).Obj().Name() == "String" {
+				fn := v.P.Prog.MethodValue(ms.At(i))
+				if fn != nil && inRepoFn(fn) && fn.Signature.Params().Len() == 0 && fn.Signature.Results().Len() == 1 {
+					if c := v.contractFor(fn); c != nil && !c.IsIface {
+						if !v.applyContract(st, in, c, fn, fn.Signature, []*Term{val}) {
+							return nil, false
+						}
+						return st.env[in], true
+					}
+					return nil, false
+				}
+			}
+		}
+	}
+	if isString(T) && verb != 'd' {
+		return val, true
+	}
+	if isInteger(T) && isUnsigned(T) && (verb == 'd' || verb == 'v') {
+		return strConcat(StrLit(""), App("dec", SString, val)), true
+	}
+	return nil, false
+}
